@@ -255,11 +255,20 @@ def runLine (r : Report) (sec : Nat) (l : Line) : Report := Id.run do
     return r.violation sec l.idx s!"deadlock: the call did not return (goroutines left={left}) op=[{opS}]"
   if stallT ≠ 0 then
     r := r.violation sec l.idx s!"a stalled user function was never released op=[{opS}]"
-  -- a reducer that writes three times is outside the property (its third write can never be received)
+  -- A reducer that writes three or more times can be left blocked in its third Write (nobody reads `output` after the
+  -- library's panic "more than one element written in reducer").  Decided by replay on the real code
+  -- (`run … r=w1.w2.w3` => panic:multi left=1 hist=…,rb1,ra1,rb2,ret,ra2,rb3): that reducer function has NOT returned,
+  -- so the clause "once the user functions have returned no goroutine … remains" does not apply to it.  The
+  -- exemption is taken only when the history shows exactly this: two completed writes, a third one begun and not
+  -- returned, the reducer function not ended.
   let inContract := (writesOf c.rscript).length ≤ 2
-  if ¬ inContract then r := r.addCover "reducer-writes>2-out-of-contract"
-  if left ≠ 0 ∧ inContract then
-    r := r.violation sec l.idx s!"goroutine leak: {left} goroutine(s) of the call alive after every user function returned res={resS} op=[{opS}]"
+  let wb := (hist.filter isWbegin).length
+  let we := (hist.filter (fun e => match e with | .wend _ => true | _ => false)).length
+  let blockedInWrite : Bool := decide (we ≥ 2) && decide (wb > we) && !hist.contains .rend && !hist.contains .rpanic
+  if ¬ inContract then r := r.addCover "reducer-writes>2"
+  if left ≠ 0 ∧ blockedInWrite then r := r.addCover "reducer-blocked-in-3rd-write-has-not-returned(outside)"
+  if left ≠ 0 ∧ ¬ blockedInWrite then
+    r := r.violation sec l.idx s!"goroutine leak: {left} goroutine(s) of the call alive after every user function returned res={resS} hist={histS} op=[{opS}]"
   let se := startEnd hist
   if peak se > c.workers then
     r := r.violation sec l.idx s!"mapper cap: {peak se} mappers ran concurrently, workers={c.workers} op=[{opS}]"
